@@ -123,7 +123,7 @@ var c17Queries = []c17Q{
 
 var c17Methods = []string{"GET", "GET", "GET", "HEAD", "POST", "POST", "PUT", "PATCH", "DELETE", "OPTIONS"}
 
-var c17HdrClasses = []string{"plain", "plain", "dups", "unusual", "hop", "spoof-identity", "xff", "no-ua-ae", "cookies", "forwarded", "conditional", "big"}
+var c17HdrClasses = []string{"plain", "plain", "dups", "unusual", "hop", "spoof-identity", "xff", "no-ua-ae", "cookies", "forwarded", "conditional", "big", "expect-continue"}
 
 // c17Headers renders the header lines of a case (without Host, X-Vf-Id, X-Vf-Resp, body headers).
 func c17Headers(c *c17Case, sessionCookie string) [][2]string {
@@ -157,6 +157,10 @@ func c17Headers(c *c17Case, sessionCookie string) [][2]string {
 		add("X-Forwarded-Host", "public.example", "X-Forwarded-Proto", "https", "X-Forwarded-Uri", "/elsewhere?x=1", "Forwarded", "for=192.0.2.60;proto=http;by=203.0.113.43", "Via", "1.1 edge", "Origin", "https://o.example", "Referer", "https://r.example/p?q=1")
 	case "conditional":
 		add("If-None-Match", `"abc", W/"def"`, "If-Modified-Since", "Sat, 29 Oct 1994 19:43:31 GMT", "Authorization", "Basic dXNlcjpwYXNz", "Access-Control-Request-Method", "PUT", "Access-Control-Request-Headers", "x-a, x-b")
+	case "expect-continue":
+		if c.BodyKind != "none" && c.BodyKind != "" {
+			add("Expect", "100-continue")
+		}
 	case "big":
 		add("X-Big", strings.Repeat("0123456789", 400), "X-Big-2", strings.Repeat("z", 2000))
 	}
@@ -308,7 +312,7 @@ func c17RandBody(r *rand.Rand, c *c17Case, thorough bool) {
 
 var c17Hosts = []string{"proxy.test", "proxy.test", "proxy.test", "proxy.test:8443", "Other.Example", "[::1]:4180", "10.1.2.3"}
 
-const c17RespClasses = 14
+const c17RespClasses = 18 // 14..17 start with 103 Early Hints
 
 func c17RandResp(r *rand.Rand) int {
 	switch k := r.Intn(100); {
@@ -354,6 +358,9 @@ func c17CoreCases(s *c17Set, thorough bool) []*c17Case {
 	var out []*c17Case
 	for _, p := range paths {
 		out = append(out, &c17Case{Method: "GET", Path: p, Host: "proxy.test", HdrClass: "plain", BodyKind: "none"})
+	}
+	for i, b := range s.Bases { // informational (1xx) responses before the final status
+		out = append(out, &c17Case{Method: []string{"GET", "POST", "HEAD", "PUT"}[i%4], Path: c17PathFrom(b, "hint"), Host: "proxy.test", HdrClass: "plain", BodyKind: "none", Resp: 14 + i%4})
 	}
 	for _, b := range s.Bases {
 		for _, t := range []string{"", "x", "a%2Fb", "a%20b+c;d", "a!b'(c)*", "q%3Fmark.txt", "plain.txt", "a%20b.txt"} {
